@@ -220,7 +220,7 @@ func Verify(mod *Module, funcName string, opts Options) (*Result, error) {
 	res.ctx.Logic = "QF_AUFBV"
 	t0 := time.Now()
 	e := &executor{mod: mod, ctx: res.ctx, opts: opts, res: res, fn: f, globalReg: map[string]*Region{}, mergeMemo: map[mergeKey]*Val{},
-		siteOrd: map[*Instr]int{}, ids: map[string]int{}, offCases: map[string][]offCase{}, mapVerMax: map[string]int{}, probes: res.probes, notes: map[string]bool{}}
+		siteOrd: map[*Instr]int{}, ids: map[string]int{}, offCases: map[string][]offCase{}, mapInsts: map[string][]*mapInst{}, mapVerMax: map[string]int{}, probes: res.probes, notes: map[string]bool{}}
 	e.tm = &terms{ctx: res.ctx, addInfo: map[string]addRec{}, defs: map[string]*defRec{}, boolDefs: map[string]string{}, axIDs: map[string]bool{}}
 	res.tm = e.tm
 	err := e.verifyEntry(f, pt, spec)
@@ -806,6 +806,20 @@ func Solve(obligs []*Obligation, solver *smt.Solver, workers int) []Solved {
 			s.Status, s.Solver = "toolimit", "none"
 			return
 		}
+		if aq := abstractArith(q); aq != "" && s.O.raw == "" {
+			// uninterpreted 64-bit multiply/divide: unsat carries over
+			var ar smt.Result
+			if solver.Confirm {
+				ar = quick.Check(aq)
+			} else {
+				ar = quick.CheckQuick(aq, 10*time.Second)
+			}
+			s.TimeS += ar.TimeS
+			if ar.Status == "unsat" {
+				s.Status, s.Solver = "unsat", ar.Solver+"/uf-arith"
+				return
+			}
+		}
 		r := solver.Check(q)
 		s.Status, s.Solver, s.Values, s.Outputs = r.Status, r.Solver, r.Values, r.Outputs
 		s.TimeS += r.TimeS
@@ -826,14 +840,26 @@ func Solve(obligs []*Obligation, solver *smt.Solver, workers int) []Solved {
 				}
 				var r smt.Result
 				if j.long {
+					// functional-spec obligation: the exact query (with its
+					// uninterpreted-arithmetic tier) first; the weak query only if
+					// that gives no answer
+					i := j.idx[0]
+					exact(i, 0)
+					if out[i].Status != "unknown" {
+						continue
+					}
 					if solver.Confirm {
 						r = solver.Check(j.weak)
 					} else {
 						r = solver.CheckQuick(j.weak, solver.Timeout)
 					}
-				} else {
-					r = checkWeak(j.weak)
+					if r.Status == "unsat" {
+						s := &out[i]
+						s.Status, s.Solver, s.TimeS, s.QueryBytes = "unsat", r.Solver+"/guards", s.TimeS+r.TimeS, len(j.weak)
+					}
+					continue
 				}
+				r = checkWeak(j.weak)
 				if r.Status == "unsat" {
 					for _, i := range j.idx {
 						s := &out[i]
@@ -965,8 +991,18 @@ func (e *executor) mathObligations(fr *frame, ref FunctionalRef, fs *FuncSpec, t
 	if kind == "" {
 		kind = ref.Kind + "_math"
 	}
-	for _, ml := range fs.Math {
+	all := append([]MathLemma{}, fs.Math...)
+	for _, l := range fs.Lemmas {
+		all = append(all, MathLemma{"lemma:" + l.Name, l.Query})
+	}
+	for _, ml := range all {
 		desc := tag + ml.Name
+		kind := kind
+		src := "lemma over mathematical integers about the definitions of " + filepath.Base(fs.File)
+		if strings.HasPrefix(ml.Name, "lemma:") {
+			kind = ref.Kind
+			src = "bit-vector lemma of " + filepath.Base(fs.File) + " (no program state involved)"
+		}
 		id := fmt.Sprintf("%s.%s.%s.%s[%s]", e.opts.Property, e.mod.Base, e.fn.Name, kind, desc)
 		if n := e.ids[id]; n > 0 {
 			e.ids[id] = n + 1
@@ -975,6 +1011,6 @@ func (e *executor) mathObligations(fr *frame, ref FunctionalRef, fs *FuncSpec, t
 			e.ids[id] = 1
 		}
 		e.res.Obligations = append(e.res.Obligations, &Obligation{ID: id, Kind: kind, Func: e.fn.Name, Desc: desc,
-			Source: "lemma over mathematical integers about the definitions of " + filepath.Base(fs.File), res: e.res, raw: ml.Query, goal: smt.False, pc: smt.True})
+			Source: src, res: e.res, raw: ml.Query, goal: smt.False, pc: smt.True})
 	}
 }
